@@ -6,6 +6,7 @@ open IV IV.Proto IV.CleanLine
 
   cls   <codepoint>                         → two flags: isWord isSpace
   repl  k v s                               → s.replace(k, v)
+  ipkeys s | mackeys s                      → the found addresses that are NOT on the ignore list, in substitution order
   ipv4  s | mac s | host d s                → findall results  (`=enc` items; mac items carry `!` when ignored)
   pw    s                                   → Password.parse_line
   rx    pat s                               → 0/1
@@ -149,6 +150,14 @@ def handle (fs : List String) : String :=
   | ["ipv4", s] =>
     match decStr s with
     | some s => if inDomain s then encItems (findIPv4 s) else "dom"
+    | none => "bad-op"
+  | ["ipkeys", s] =>
+    match decStr s with
+    | some s => if inDomain s then encItems (ipKeys s) else "dom"
+    | none => "bad-op"
+  | ["mackeys", s] =>
+    match decStr s with
+    | some s => if inDomain s then encItems (macKeys s) else "dom"
     | none => "bad-op"
   | ["mac", s] =>
     match decStr s with
